@@ -38,7 +38,7 @@ def enc_val(v):
     return "n"
 
 
-def enc_action(a, indents=None):
+def enc_action(a, indents=None, attrs=None):
     """violation action: a dict as key/values; a plain string under the key `_str`; None as `_none` (and
     `__none__`, the key the whitespace family reads); any other object as `_other`; the indent levels of
     the old tokens (if harvested) under `_indents`"""
@@ -52,6 +52,9 @@ def enc_action(a, indents=None):
         d = {"_other": None}
     if indents is not None:
         d["_indents"] = [i if isinstance(i, int) and not isinstance(i, bool) else None for i in indents]
+    if attrs:
+        # `_tv`, `_ti`, `_iw`, `_a`: what the line-structure family reads from the violation itself
+        d.update(attrs)
     return enc_kv(d)
 
 
@@ -89,7 +92,7 @@ def replay_records(records, ncls):
 
     from leanio import DRIVER
 
-    payload = "".join("%s\t%s\t%s\t%s\n" % (r["owner"], enc_kv(r["params"]), enc_action(r["action"], r.get("indents")), enc_plain_toks(r["old"], ncls)) for r in records)
+    payload = "".join("%s\t%s\t%s\t%s\n" % (r["owner"], enc_kv(r["params"]), enc_action(r["action"], r.get("indents"), r.get("attrs")), enc_plain_toks(r["old"], ncls)) for r in records)
     p = subprocess.run([DRIVER, "bfix"], input=payload, stdout=subprocess.PIPE, text=True, encoding="utf-8")
     replies = p.stdout.split("\n")
     modelled = 0
